@@ -644,22 +644,17 @@ def _rowwise(prog: Program, res: Result, lb: int):
                               path=[k for k, tr, ln in pre][-5:])
     res.count("rowwise_select_events", n_sel)
     res.floor("rowwise_select_events", 4)
-    # point_sort returns a permutation of the points it is given
-    ps = [n for n in ast.walk(fi.node) if isinstance(n, ast.FunctionDef) and n.name == "point_sort"]
-    if ps:
-        okp = True
-        rets = [r for r in walk_no_nested(ps[0]) if isinstance(r, ast.Return) and r.value is not None]
-        for r in rets:
-            v = r.value
-            good = (isinstance(v, ast.ListComp) and len(v.generators) == 1 and not v.generators[0].ifs and isinstance(v.elt, ast.Name)
-                    and isinstance(v.generators[0].target, ast.Tuple) and len(v.generators[0].target.elts) == 2
-                    and isinstance(v.generators[0].target.elts[1], ast.Name) and v.generators[0].target.elts[1].id == v.elt.id
-                    and isinstance(v.generators[0].iter, ast.Call) and attr_chain(v.generators[0].iter.func) == "sorted"
-                    and _sorted_zip_of_param(v.generators[0].iter, ps[0]))
-            okp = okp and good
-        res.ob("R01.1", "row-wise: point_sort returns the given points reordered (unfiltered comprehension over sorted(zip(distances, other_points)))", okp and bool(rets), prog.loc(fi, ps[0]))
-        if not (okp and rets):
-            res.violation("R01.1", "point_sort-not-a-permutation", prog.loc(fi, ps[0]), q, "point_sort no longer returns a plain reordering of the points it is given: the reduced fields are not sub-fields of the evaluated sparse field")
+    # the field the borehole removal starts from is the evaluated sparse field REORDERED: whatever produces it must be a helper
+    # whose every return is a plain reordering of its points argument, applied to that field
+    perms = sc.permutation_helpers(prog, fi)
+    starts = [a for a in walk_no_nested(fi.node) if isinstance(a, ast.Assign) and isinstance(a.value, ast.Call) and isinstance(a.value.func, ast.Name)
+              and any(isinstance(x, ast.Subscript) and isinstance(x.slice, ast.Slice) and isinstance(x.value, ast.Name) and isinstance(a.targets[0], ast.Name) and x.value.id == a.targets[0].id for x in ast.walk(fi.node))]
+    sorters = [a for a in starts if len(a.value.args) >= 2 and not attr_chain(a.value.func).startswith(("field_optimization", "gen_shape"))]
+    for a in sorters:
+        okp = a.value.func.id in perms
+        res.ob("R01.1", f"row-wise: {a.value.func.id}() returns the given points reordered (unfiltered comprehension over sorted(zip(distances, points)))", okp, prog.loc(fi, a))
+        if not okp:
+            res.violation("R01.1", "point_sort-not-a-permutation", prog.loc(fi, a), q, f"{a.value.func.id}() no longer returns a plain reordering of the points it is given: the reduced fields are not sub-fields of the evaluated sparse field")
     # sweep protocol: compute_g_functions before size
     seq = []
     for n in ast.walk(fi.node):
